@@ -242,17 +242,94 @@ def rule_null_space(repo: Repo, rep: Report) -> int:
         rep.note("compute_null_space_matrix has no exact elimination helper on this tree")
     # LDPC generator: null space of H via [H^T | I], cut at the rank
     li = repo.func(f"{ENC}/ldpc_code.py", "LDPCCodeEncoder.get_generator_matrix")
-    body = [unparse(s) for s in li.body]
-    ok1 = "check_matrix_eye, rank = row_reduction(check_matrix_eye, num_cols=check_matrix.shape[1])" in body
-    ok2 = "generator_matrix = row_reduction(check_matrix_eye[rank:, check_matrix.shape[1]:])[0]" in body
-    ok0 = any(b.startswith("check_matrix_eye = torch.cat((check_matrix, torch.eye(check_matrix.shape[0])") for b in body) and any(b.startswith("check_matrix = check_matrix_.clone().to(torch.int64).t()") for b in body)
-    if ok0 and ok1 and not ok2:
-        cut = [b for b in body if b.startswith("generator_matrix = ")]
-        rep.violation("VERIFIED-RETURN", li, cut[0] if cut else "generator_matrix", "the null-space rows of [H^T | I] start at the RANK of H; cutting anywhere else drops codewords (rank-deficient H) or includes non-codewords", node=li.node)
-    else:
-        rep.expect(ok0 and ok1 and ok2, "VERIFIED-RETURN", li, "G = rows[rank:] of the right block after row-reducing [H^T | I] over the first m columns", "exactly the null space of H, also for rank-deficient H", "the LDPC generator is not derived as the null space of H through row reduction", node=li.node)
-    n += 1
+    n += ldpc_generator_rule(rep, li)
     return n
+
+
+def ldpc_generator_rule(rep: Report, li: FuncInfo) -> int:
+    """G = rows[rank:] of the right block after row-reducing [H^T | I_n] over the first m columns."""
+    hparam = li.params[-1] if li.params else "check_matrix_"
+    transposed = None  # name of H^T
+    dims: Dict[str, str] = {}
+    for s_ in li.body:
+        if isinstance(s_, ast.Assign) and isinstance(s_.targets[0], ast.Name) and isinstance(s_.value, ast.Call) and any(isinstance(x, ast.Name) and x.id == hparam for x in ast.walk(s_.value)):
+            txt = unparse(s_.value)
+            if txt.endswith(".t()") or txt.endswith(".T") or "transpose(0, 1)" in txt:
+                transposed = s_.targets[0].id
+        if isinstance(s_, ast.Assign) and isinstance(s_.targets[0], ast.Tuple) and unparse(s_.value) in (f"{hparam}.shape", f"{hparam}.size()") and len(s_.targets[0].elts) == 2:
+            a_, b_ = s_.targets[0].elts
+            if isinstance(a_, ast.Name) and isinstance(b_, ast.Name):
+                dims[a_.id], dims[b_.id] = "m", "n"
+
+    def dim_of(e: ast.AST) -> Optional[str]:
+        t = unparse(e)
+        if isinstance(e, ast.Name) and e.id in dims:
+            return dims[e.id]
+        for base, first, second in ((hparam, "m", "n"), (transposed, "n", "m")):
+            if base is None:
+                continue
+            if t in (f"{base}.shape[0]", f"{base}.size(0)", f"{base}.shape[-2]"):
+                return first
+            if t in (f"{base}.shape[1]", f"{base}.size(1)", f"{base}.shape[-1]"):
+                return second
+        return None
+
+    if transposed is None:
+        rep.undecided("VERIFIED-RETURN", li, "H^T", "transposed copy of the check matrix not found", node=li.node)
+        return 1
+    n = 0
+    aug = [s_ for s_ in li.body if isinstance(s_, ast.Assign) and isinstance(s_.value, ast.Call) and call_name(s_.value) == "torch.cat" and transposed in unparse(s_.value) and "torch.eye" in unparse(s_.value)]
+    red = [s_ for s_ in li.body if isinstance(s_, ast.Assign) and isinstance(s_.value, ast.Call) and call_name(s_.value) == "row_reduction" and any(k.arg == "num_cols" for k in s_.value.keywords)]
+    fin = [s_ for s_ in li.body if isinstance(s_, ast.Assign) and isinstance(s_.value, ast.Subscript) and isinstance(s_.value.value, ast.Call) and call_name(s_.value.value) == "row_reduction"]
+    if len(aug) != 1 or len(red) != 1 or len(fin) != 1:
+        rep.undecided("VERIFIED-RETURN", li, "LDPC generator from [H^T | I]", f"{len(aug)} augmentation / {len(red)} reduction / {len(fin)} extraction statements (code shape not recognised)", node=li.node)
+        return 1
+    # [H^T | I_n]
+    eye = [c for c in ast.walk(aug[0].value) if isinstance(c, ast.Call) and call_name(c) == "torch.eye" and c.args]
+    de = dim_of(eye[0].args[0]) if eye else None
+    order_ok = unparse(aug[0].value.args[0].elts[0]) == transposed if isinstance(aug[0].value.args[0], (ast.Tuple, ast.List)) and aug[0].value.args[0].elts else False
+    n += 1
+    if de == "n" and order_ok:
+        rep.ok("VERIFIED-RETURN", li, f"augmented matrix {unparse(aug[0].value)[:80]}", "[H^T | I_n]: the identity records the row operations", node=aug[0])
+    elif de == "m":
+        rep.violation("VERIFIED-RETURN", li, f"augmented matrix {unparse(aug[0].value)[:80]}", "the identity block must have one row per row of H^T (n rows), not m", node=aug[0])
+    else:
+        rep.undecided("VERIFIED-RETURN", li, f"augmented matrix {unparse(aug[0].value)[:80]}", "identity size / block order not recognised", node=aug[0])
+    # reduction over the H^T columns, keeping the rank
+    nc = next(k.value for k in red[0].value.keywords if k.arg == "num_cols")
+    dn = dim_of(nc)
+    n += 1
+    if dn == "m":
+        rep.ok("VERIFIED-RETURN", li, f"row reduction over the first {unparse(nc)} columns", "pivots are sought in the H^T block only", node=red[0])
+    elif dn == "n":
+        rep.violation("VERIFIED-RETURN", li, f"row reduction over the first {unparse(nc)} columns", "the reduction must be confined to the m columns of H^T; reducing n columns mixes the identity block in", node=red[0])
+    else:
+        rep.undecided("VERIFIED-RETURN", li, f"row reduction over the first {unparse(nc)} columns", "column count not recognised", node=red[0])
+    tgt = red[0].targets[0]
+    rank_name = tgt.elts[1].id if isinstance(tgt, ast.Tuple) and len(tgt.elts) == 2 and isinstance(tgt.elts[1], ast.Name) else None
+    sub = fin[0].value.value.args[0] if fin[0].value.value.args else None
+    n += 1
+    if not (isinstance(sub, ast.Subscript) and isinstance(sub.slice, ast.Tuple) and len(sub.slice.elts) == 2 and all(isinstance(e, ast.Slice) for e in sub.slice.elts)):
+        rep.undecided("VERIFIED-RETURN", li, fin[0], "extraction of the null-space rows not recognised", node=fin[0])
+        return n
+    rows, cols = sub.slice.elts
+    lo = rows.lower
+    if isinstance(lo, ast.Name) and rank_name is not None and rank_name != "_" and lo.id == rank_name and rows.upper is None:
+        rep.ok("VERIFIED-RETURN", li, f"null-space rows start at `{lo.id}`, the rank returned by the reduction", "exactly the rows whose H^T part vanished: the null space of H, also for rank-deficient H", node=fin[0])
+    elif lo is not None and (dim_of(lo) in ("m", "n") or isinstance(lo, ast.Constant)):
+        rep.violation("VERIFIED-RETURN", li, f"null-space rows start at `{unparse(lo)}`", "the rows of [0 | G] start at the RANK of H (the second value returned by row_reduction), not at a matrix dimension: for a check matrix with dependent rows the rows between rank and m are also codewords and are dropped here, so the published generator spans a smaller code than the null space of H", node=fin[0])
+    else:
+        rep.undecided("VERIFIED-RETURN", li, f"null-space rows start at `{unparse(lo) if lo is not None else ''}`", "start row not recognised as the reduction's rank", node=fin[0])
+    n += 1
+    dc = dim_of(cols.lower) if cols.lower is not None else None
+    if dc == "m" and cols.upper is None:
+        rep.ok("VERIFIED-RETURN", li, f"generator columns start after the {unparse(cols.lower)} columns of H^T", "the identity block holds the combination of rows, i.e. the codeword", node=fin[0])
+    elif dc == "n":
+        rep.violation("VERIFIED-RETURN", li, f"generator columns start at `{unparse(cols.lower)}`", "the H^T block has m columns; cutting at n leaves the wrong block", node=fin[0])
+    else:
+        rep.undecided("VERIFIED-RETURN", li, f"generator columns start at `{unparse(cols.lower) if cols.lower is not None else ''}`", "column offset not recognised", node=fin[0])
+    return n
+
 
 
 def rule_info_set_dependence(repo: Repo, rep: Report) -> int:
